@@ -1,6 +1,7 @@
 import SJ.Proofs.Tables
 import SJ.Proofs.Numeric
 import SJ.Proofs.Lookup
+import SJ.Proofs.GoNum
 /-
 C12 — Lookup, filtered iteration and bulk accessors agree with plain traversal.
 -/
@@ -83,5 +84,28 @@ open SJ.Layout SJ.WalkLayout SJ.Lookup in
 theorem C12_map (pj : PJ) (p e : Nat) (ms : LMems) (hok : Ok pj (.obj p e ms)) (ht : TightMs ms) :
     View.objMap pj { lim := e, off := p + 1 } [] (fuelOf pj) = .ok ((toIMems ms).foldl (fun m kv => mapInsert m kv.1 kv.2) []) :=
   objMap_spec_fuelOf pj p e ms hok ht
+
+open SJ.GoSem SJ.GoIter SJ.GoNum in
+/-- **The numeric accessors of the model are the meaning of their Go source.** `Generated.goIter_Float`, `…_FloatFlags`,
+    `…_Int`, `…_Uint` are the syntax trees the translator prints from `parsed_json.go` on every run (`switch i.t`, the
+    bounds check of the value word, the range tests `v >= math.MaxInt64`, `v < math.MinInt64`, `v >= math.MaxUint64`,
+    `v < 0` with the constants converted to float64 as Go does, the conversions). Interpreting them gives exactly
+    `Iter.float`, `floatFlags`, `int`, `uint` of the hand model — value and `nil`, or the zero value and an error exactly when
+    the model errs; receiver and tape untouched; on a view of the tape neither side panics. `C12_int_exact`,
+    `C12_uint_exact`, `C12_float_exact` are therefore statements about this source (amd64 float→integer conversion and
+    IEEE comparison as modelled in `Spec.F64` / `Model.Access`). -/
+theorem C12_numeric_accessors_follow_source (pj : PJ) (i : Iter) (fuel : Nat) :
+    SimR pj.tape i (fun b => [.u64 b]) [.u64 0]
+      (runFun goFuns goIter_Float fuel { env := envOf "i" i, tape := pj.tape }) (i.float pj) ∧
+    SimR pj.tape i (fun p => [.u64 p.1, .u64 p.2]) [.u64 0, .u64 0]
+      (runFun goFuns goIter_FloatFlags fuel { env := envOf "i" i, tape := pj.tape }) (i.floatFlags pj) ∧
+    SimR pj.tape i (fun z => [.int z]) [.int 0]
+      (runFun goFuns goIter_Int fuel { env := envOf "i" i, tape := pj.tape }) (i.int pj) ∧
+    SimR pj.tape i (fun n => [.u64 (UInt64.ofNat n)]) [.u64 0]
+      (runFun goFuns goIter_Uint fuel { env := envOf "i" i, tape := pj.tape }) (i.uint pj) ∧
+    (∀ n, i.uint pj = .ok n → n < 2^64) ∧
+    (i.lim ≤ pj.tape.size →
+      i.float pj ≠ .panic ∧ i.floatFlags pj ≠ .panic ∧ i.int pj ≠ .panic ∧ i.uint pj ≠ .panic) :=
+  go_num_source_tie pj i fuel
 
 end SJ.Properties.C12
